@@ -31,6 +31,15 @@ Theorem C13_query : forall children fuel h q T,
             Permutation l (map Some (spec_query children fuel (live (fst (run children fuel init h))) T)).
 Proof. exact query_correct. Qed.
 
+(* the same for a variable declared earlier (let(T, None) called, nothing evaluated) and evaluated for the first time now:
+   its range is decided at this first evaluation, whatever happened since the declaration *)
+Theorem C13_eval_declared : forall children fuel h k T,
+  adm_run children fuel init h = true -> no_clear h = true -> desc_b children fuel T T = false ->
+  nth_error (vars (fst (run children fuel init h))) k = Some (T, VPending) ->
+  exists l, snd (step children fuel (fst (run children fuel init h)) (EvalV k)) = OInst l /\
+            Permutation l (map Some (spec_query children fuel (live (fst (run children fuel init h))) T)).
+Proof. exact eval_correct. Qed.
+
 (* ... and while no EQL query has cached a domain, "existing" = "still referenced by the program" *)
 Theorem C13_existing_is_referenced : forall children fuel h,
   no_eql h = true -> map o_id (live (fst (run children fuel init h))) = user (fst (run children fuel init h)).
@@ -52,8 +61,8 @@ Proof. exact refuted_clear. Qed.
 
 Theorem C13_refuted_stale_variable :
   exists h k, adm_run wch wfuel init h = true /\
-              snd (step wch wfuel (fst (run wch wfuel init h)) (ReEval k)) = OInst [Some 0] /\
-              snd (spec_step wch wfuel (fst (spec_run wch wfuel a_init h)) (ReEval k)) = OInst [Some 0; Some 1].
+              snd (step wch wfuel (fst (run wch wfuel init h)) (EvalV k)) = OInst [Some 0] /\
+              snd (spec_step wch wfuel (fst (spec_run wch wfuel a_init h)) (EvalV k)) = OInst [Some 0; Some 1].
 Proof. exact refuted_stale_variable. Qed.
 
 Theorem C13_refuted_pinned :
@@ -84,3 +93,4 @@ Print Assumptions C13_refuted_stale_variable.
 Print Assumptions C13_refuted_pinned.
 Print Assumptions C13_model_is_source.
 Print Assumptions C13_model_is_spec_on_F.
+Print Assumptions C13_eval_declared.
